@@ -105,6 +105,12 @@ def cmd_run(sid, props, tier='quick'):
         for p in props:
             res[p] = run_check(wt, p, tier)
             print(sid, p, 'exit', res[p]['exit'], res[p]['violations'][:1], res[p]['stderr_tail'][-200:])
+            key = 'quick_check' if (p == meta['property'] and tier == 'quick') else None
+            if key:
+                meta.setdefault('ran', {})[key] = res[p]
+            else:
+                meta.setdefault('ran', {}).setdefault('other_checks', {})[f'{p}:{tier}'] = res[p]
+        json.dump(meta, open(os.path.join(dst, 'meta.json'), 'w'), indent=1)
     finally:
         drop(wt)
     return res
